@@ -90,10 +90,11 @@ def digest_any(x) -> str:
     if isinstance(x, np.ndarray):
         return "A" + digest_array(x)
     if isinstance(x, (list, tuple)):
+        # a list and an array with the same numbers are not the same value to the caller (2*v differs): keep the kind
         try:
             arr = np.asarray(x)
             if arr.dtype != object:
-                return "L" + digest_array(arr)
+                return ("L" if isinstance(x, list) else "T") + digest_array(arr)
         except Exception:
             pass
         return "J" + digest_bytes(repr(x).encode())
